@@ -2,7 +2,7 @@
 //! options on a corpus of files, against (a) the Lean decision table `MdModel.Cli.cli` and
 //! (b) the reports the library produces in-process for the same file and options.
 //!
-//! case line: `cli <flags> file:<id> feat:<0|1|2> out:<0|1> log:<0|1> sym:<0|1|2>`
+//! case line: `cli <flags> file:<id> feat:<0|1|2> out:<0|1> log:<0|1> sym:<0..4>`
 //!   flags ⊆ "hjcdbp" (human json cyborg dump brief pretty) or "-"
 //!   file ids: t:<name> (repo testdata) | missing | empty | dir | garbage:<seed> | trunc:<name>:<len>
 //!             | mut:<name>:<seed> (byte-mutated copy)
@@ -104,6 +104,21 @@ fn materialise(id: &str, dir: &Path) -> PathBuf {
     }
 }
 
+/// symbol path forms: 0 none | 1 positional | 2 --symbols-path | 3 --symbols-path <empty dir> + positional
+/// symbols | 4 --symbols-path symbols + positional <empty dir>. Returns (named, positional).
+fn sym_paths(sym: u32) -> (Vec<PathBuf>, Vec<PathBuf>) {
+    let symdir = repo().join("testdata/symbols");
+    let empty = verif().join(".scratch/cli/empty-symbols");
+    let _ = std::fs::create_dir_all(&empty);
+    match sym {
+        1 => (vec![], vec![symdir]),
+        2 => (vec![symdir], vec![]),
+        3 => (vec![empty], vec![symdir]),
+        4 => (vec![symdir], vec![empty]),
+        _ => (vec![], vec![]),
+    }
+}
+
 struct Case {
     flags: String,
     file: String,
@@ -171,9 +186,11 @@ fn library(path: &Path, feat: u32, sym: u32) -> Lib {
         options.evil_json = None;
         options.recover_function_args = false;
         let mut provider = MultiSymbolProvider::new();
-        if sym != 0 {
-            provider.add(Box::new(Symbolizer::new(simple_symbol_supplier(vec![repo()
-                .join("testdata/symbols")]))));
+        // the tool merges `--symbols-path` values and positional paths, in that order
+        let (named, positional) = sym_paths(sym);
+        let all: Vec<PathBuf> = named.into_iter().chain(positional).collect();
+        if !all.is_empty() {
+            provider.add(Box::new(Symbolizer::new(simple_symbol_supplier(all))));
         }
         let rt = tokio::runtime::Builder::new_current_thread().enable_all().build().unwrap();
         let state = rt.block_on(minidump_processor::process_minidump_with_options(&dump, &provider, options));
@@ -304,9 +321,9 @@ impl Engine for Cli {
                 };
                 for (vi, v) in variants.iter().enumerate() {
                     let (feat, out, log, sym) = if tier == Tier::Quick {
-                        (k % 3, (k / 3) % 2, (k / 6) % 2, (k / 12) % 3)
+                        (k % 3, (k / 3) % 2, (k / 6) % 2, (k / 12) % 5)
                     } else {
-                        (v.0, v.1, v.2, (v.3 + vi as u32 + k) % 3)
+                        (v.0, v.1, v.2, (v.3 + vi as u32 + k) % 5)
                     };
                     emit(format!("cli {flags} file:{file} feat:{feat} out:{out} log:{log} sym:{sym}"));
                 }
@@ -381,14 +398,14 @@ impl Engine for Cli {
             args.push(log_file.display().to_string());
         }
         args.push("--no-interactive".into());
-        let symdir = repo().join("testdata/symbols").display().to_string();
-        if c.sym == 2 {
+        let (named, positional) = sym_paths(c.sym);
+        for p in &named {
             args.push("--symbols-path".into());
-            args.push(symdir.clone());
+            args.push(p.display().to_string());
         }
         args.push(path.display().to_string());
-        if c.sym == 1 {
-            args.push(symdir);
+        for p in &positional {
+            args.push(p.display().to_string());
         }
         let output = Command::new(tool())
             .args(&args)
